@@ -235,6 +235,7 @@ class MinEngine:
         if b < a:
             st.bump('result-strictly-smaller')
         st.bump('equivalence-checked')
+        self.ev['result'] = now.digest()
         if kw['enable_validation']:
             st.bump('validation-enabled-and-passed')
         self.res.states.add(pre.shape_digest())
